@@ -568,7 +568,9 @@ impl Exec {
             if w.write_blocked { v.push(Ev::WriteUnblock); }
             return v;
         }
-        if w.avail < w.sent { v.push(Ev::Deliver); }
+        // (once the connection task has finished nobody reads any more: further deliveries would only burn steps)
+        let conn_done = self.tasks.first().map_or(false, |t| t.done());
+        if w.avail < w.sent && !conn_done { v.push(Ev::Deliver); }
         if w.gate_open() && !w.peer_closed { v.push(Ev::PeerSend); }
         else if w.next_seg < w.segs.len() && matches!(w.segs[w.next_seg].gate, Gate::AfterReplies(_)) { drop(w); let mut w = lock(&self.world); w.cx.fault("peer_withhold"); return self.enabled_env_rest(v, &w); }
         if w.read_blocked { v.push(Ev::ReadUnblock); }
